@@ -22,7 +22,12 @@ def gen_layer(rng, idx, used=NAMES):
     fields, inverses, params = {}, {}, {}
     if rng.random() < 0.5:
         params['_p'] = {'args': rng.sample(NAMES, rng.choice([0, 1]))}
-    style = rng.choices(['invertible', 'inherit', 'forward-only', 'wild', 'listed-inverse'], [45, 22, 8, 15, 10])[0]
+    style = rng.choices(['invertible', 'inherit', 'forward-only', 'wild', 'listed-inverse', 'exclude-only'], [42, 20, 8, 14, 9, 7])[0]
+    if style == 'exclude-only':
+        # a layer without fields of its own that passes on everything but one of the used names: that name has no inverse
+        # path through it (and no forward path either)
+        return {'k': 'transform', 'cls': cls, 'fields': {}, 'inverses': {}, 'params': {}, 'cargs': {}, 'defaults': {},
+                'exclude': [rng.choice(used)] + [n for n in NAMES if n not in used and rng.random() < 0.3]}
     if style == 'listed-inverse':
         # a name listed in __inherit__ for which the layer also has its own (non-identity) inverse, but no forward field
         b_ = rng.choice(used)
